@@ -59,6 +59,7 @@ def configs(tier, seed):
                 for J in (1, 2):
                     for (h, wd) in SHAPES_2D:
                         out.append(dict(dim=2, wave=w, mode=mode, J=J, H=h, W=wd, B=1, C=1))
+        _custom(out)
         out.append(dict(dim=2, wave='db2', mode='symmetric', J=2, H=5, W=6, B=2, C=3))
         out.append(dict(dim=2, wave='db2', mode='periodization', J=2, H=6, W=8, B=2, C=2))
     else:
@@ -83,11 +84,34 @@ def configs(tier, seed):
                         if J < 3 or (h <= 10 and wd <= 10 and (h + wd + seed) % 3 == 0) or (h, wd) in ((12, 13), (16, 16)):
                             if (k + J + len(w) + seed) % 2 == 0 or h != wd:
                                 out.append(dict(dim=2, wave=w, mode=mode, J=J, H=h, W=wd, B=1, C=1))
+        _custom(out)
         for w in ['db3', 'bior3.1', 'sym4']:
             for mode in D.MODES:
                 out.append(dict(dim=1, wave=w, mode=mode, J=2, N=13, B=2, C=3))
                 out.append(dict(dim=2, wave=w, mode=mode, J=2, H=7, W=6, B=2, C=3))
     return out
+
+
+def _custom(out):
+    # user-supplied filter banks handed over as tuples of arrays (a 2-tap bank that is not Haar, a 4-tap bank without any symmetry)
+    for w in D.CUSTOM:
+        for mode in D.MODES:
+            for J in (1, 2):
+                for n in (5, 8):
+                    out.append(dict(dim=1, wave=w, mode=mode, J=J, N=n, B=1, C=1))
+            out.append(dict(dim=2, wave=w, mode=mode, J=1, H=5, W=6, B=1, C=1))
+            out.append(dict(dim=2, wave=w, mode=mode, J=2, H=8, W=6, B=1, C=2))
+    # distinct column / row wavelets (4-tuples of filters)
+    for w in ('pair:db2|db3', 'pair:bior1.3|db2', 'pair:haar|db2'):
+        for mode in D.MODES:
+            out.append(dict(dim=2, wave=w, mode=mode, J=1, H=12, W=13, B=1, C=1))
+            out.append(dict(dim=2, wave=w, mode=mode, J=2, H=13, W=12, B=1, C=2))
+    # the same transform called under torch.no_grad(), on inputs that require grad, on transposed / channels-last storage
+    for ctx in D.CTXS:
+        for mode in ('zero', 'symmetric', 'periodization'):
+            out.append(dict(dim=2, wave='db2', mode=mode, J=2, H=5, W=6, B=2, C=2, ctx=ctx))
+            out.append(dict(dim=2, wave='pair:db2|db3', mode=mode, J=1, H=12, W=12, B=1, C=1, ctx=ctx))
+            out.append(dict(dim=1, wave='db2', mode=mode, J=2, N=9, B=2, C=2, ctx=ctx))
 
 
 def _facts(cfg):
@@ -108,23 +132,23 @@ def _shape(cfg):
 
 def _module(pw, cfg):
     if cfg['dim'] == 1:
-        return pw.DWT1DForward(J=cfg['J'], wave=cfg['wave'], mode=cfg['mode'])
-    return pw.DWTForward(J=cfg['J'], wave=cfg['wave'], mode=cfg['mode'])
+        return pw.DWT1DForward(J=cfg['J'], wave=D.lib_wave(cfg['wave'], False), mode=cfg['mode'])
+    return pw.DWTForward(J=cfg['J'], wave=D.lib_wave(cfg['wave'], False), mode=cfg['mode'])
 
 
 def case(cfg):
     in_specs = [('x', _shape(cfg))]
 
     def impl(pw, ts):
-        yl, yh = _module(pw, cfg)(ts[0])
+        yl, yh = D.call_ctx(pw, cfg, lambda a: _module(pw, cfg)(a[0]), ts)
         return [('yl', yl)] + [('yh%d' % (j + 1), h) for j, h in enumerate(yh)]
 
     def ref(arrs):
         x = arrs[0]
         if cfg['dim'] == 1:
-            c = pywt.wavedec(x, cfg['wave'], mode=cfg['mode'], level=cfg['J'], axis=-1)
+            c = pywt.wavedec(x, D.W(cfg['wave']), mode=cfg['mode'], level=cfg['J'], axis=-1)
             return [c[0]] + [b for b in c[1:][::-1]]
-        c = pywt.wavedec2(x, cfg['wave'], mode=cfg['mode'], level=cfg['J'], axes=(-2, -1))
+        c = pywt.wavedec2(x, D.W(cfg['wave']), mode=cfg['mode'], level=cfg['J'], axes=(-2, -1))
         return [c[0]] + [np.stack(b, axis=-3) for b in c[1:][::-1]]
     return in_specs, impl, ref
 
